@@ -260,6 +260,11 @@ def filter_xml(kind, fs, fe, extra="none"):
         attrs += ' end="%s"' % fmt_dt(fe)
     tr = "<C:time-range%s/>" % attrs
     true_cond = '<C:prop-filter name="UID"/>'
+    if extra in ("sib-before", "sib-after"):
+        # an always-true sibling: a second comp-filter for the same component type without conditions (RFC 4791 9.7.1: all must match)
+        sib = '<C:comp-filter name="%s"/>' % kind
+        main = '<C:comp-filter name="%s">%s</C:comp-filter>' % (kind, tr)
+        return '<C:filter %s><C:comp-filter name="VCALENDAR">%s</C:comp-filter></C:filter>' % (NS, sib + main if extra == "sib-before" else main + sib)
     inner = tr if extra == "none" else (true_cond + tr if extra == "before" else tr + true_cond)
     return '<C:filter %s><C:comp-filter name="VCALENDAR"><C:comp-filter name="%s">%s</C:comp-filter></C:comp-filter></C:filter>' % (NS, kind, inner)
 
@@ -301,7 +306,7 @@ def function_level(ctx):
             stratum = o["kind"] + (":" + o.get("combo", o.get("end", "")) if o["kind"] != "VJOURNAL" else "") + (":rec" if o["recurring"] else "")
             ctx.case(stratum, sample={"kind": o["kind"], "lines": o["text"].split("\r\n")[4:-3], "range": [fs, fe], "match": exp},
                      key=[o["text"], fs, fe], nontrivial=exp)
-            for extra in ("none", "before", "after"):
+            for extra in ("none", "before", "after", "sib-before", "sib-after"):
                 fel = ET.fromstring(filter_xml(o["kind"], fs, fe, extra))
                 try:
                     got = rfilter.comp_match(item, fel[0])
@@ -311,7 +316,7 @@ def function_level(ctx):
                 if got != exp:
                     fid = None
                     ctx.violation("time-range filter (%s always-true condition) says %s, RFC 4791 9.9 says %s" % (
-                        {"none": "no", "before": "preceding", "after": "following"}[extra], got, exp), dict(case, conjunct=extra), exp, got, finding=fid)
+                        {"none": "no", "before": "preceding", "after": "following", "sib-before": "preceding sibling", "sib-after": "following sibling"}[extra], got, exp), dict(case, conjunct=extra), exp, got, finding=fid)
                 if a is not None and extra == "none" and a["match"] != got:
                     ctx.disagree("time_range_match vs model", case, got, a["match"])
             # hull in the cache: for an unbounded rule it starts at the first real occurrence and never ends
@@ -368,7 +373,7 @@ def end_to_end(ctx):
                 fsx, fex = (TMIN if fs is None else fs), (TMAX if fe is None else fe)
                 exp = sorted(x["uid"] for x in cand if rfc_match(x, fsx, fex))
                 results = {}
-                for extra in ("none", "before", "after"):
+                for extra in ("none", "before", "after", "sib-before", "sib-after"):
                     body = ('<?xml version="1.0"?><C:calendar-query %s><D:prop><D:getetag/></D:prop>%s</C:calendar-query>'
                             % (NS, filter_xml(kind, fs, fe, extra)))
                     if fe is None and any(x["unbounded"] for x in objs if x["kind"] == kind):
